@@ -118,11 +118,16 @@ class Builder:
                          {"suit-condition-image-match": ALLPOL}]
         # dependencies
         for k, (name, child, form, alg) in enumerate(sh.get("deps", [])):
-            cdesc = self.desc(child, creator, level + 1)
+            cdesc = self.desc(child, creator, level + 1) if form != "extpath" else None
             comps.append(["D", name])
             idx = len(comps) - 1
             dependencies[str(idx)] = {}
-            if form == "inline":
+            if form == "extpath":  # an existing file (possibly signed / not an envelope at all)
+                ref = child
+                integrated_deps[name] = child
+                if alg is None:
+                    continue
+            elif form == "inline":
                 ref = copy.deepcopy(cdesc)
                 integrated_deps[name] = copy.deepcopy(cdesc)
             else:
